@@ -265,10 +265,22 @@ func c14Workload(cs *c14Case, res *c14Result) {
 		}
 		waitQuiet(w)
 		after := segCount()
-		// (on a loaded machine "quiet" can be reported before the merger got to run: give it up to 20 s)
-		for dl := time.Now().Add(20 * time.Second); ok && after >= before+probes-2 && time.Now().Before(dl); {
-			time.Sleep(100 * time.Millisecond)
-			after = segCount()
+		// (an idle writer can sit on unmerged segments: its merger is only woken by a newly persisted epoch,
+		// and on a loaded machine "quiet" can be reported before the merger got to run: up to eight further
+		// batches that change nothing - each a new epoch - with a short wait each)
+		for nudge := 0; ok && after >= before+probes-2 && nudge < 8; nudge++ {
+			nb := bluge.NewBatch()
+			nb.Delete(bluge.Identifier("no-such-document"))
+			if w.Batch(nb) != nil {
+				break
+			}
+			waitQuiet(w)
+			for dl := time.Now().Add(2 * time.Second); time.Now().Before(dl); {
+				if after = segCount(); after < before+probes-2 {
+					break
+				}
+				time.Sleep(50 * time.Millisecond)
+			}
 		}
 		// the hard verdict is structural: the writer's three background goroutines must still exist
 		dump := goroutineDump()
@@ -445,11 +457,18 @@ func c14Judge(c *vk.Ctx, cs *c14Case, res *vk.ChildResult) {
 	if out.DeadLoop != "" {
 		c.Violate("background-goroutine-gone-after-fault:"+out.DeadLoop, fmt.Sprintf("%s fault (%s, sticky=%v) at operation %d, cleared afterwards: the open writer's %s goroutine no longer exists (%s)", cs.Op, cs.Mode, cs.Sticky, cs.FaultAt, out.DeadLoop, out.MergeProbe), wit)
 	} else if out.MergeProbe != "" {
-		// no merge within 20 s although all three loops are alive: a wall-clock observation, not a verdict
-		c.Inconclusive("no-merge-within-20s-after-fault")
+		// nothing merged after eight further epochs although all three loops are alive: an observation on
+		// wall-clock waits, not a verdict
+		c.Inconclusive("no-merge-after-8-further-epochs")
 		c.Event("merge_probe_slow", 1)
 	} else if out.SegmentsAfterProbe > 0 {
 		c.Event("merge_alive_probes_after_fault", 1)
+	}
+	for _, e := range out.Events {
+		if e.Op == "mark" && e.Tag == "failed-persist-left-file" {
+			c.Violate("failed-persist-leaves-item-on-disk", fmt.Sprintf("Directory.Persist of %s returned an error and left a file of %d bytes under that name (%s fault, %s, operation %d)", mon.FileName(e.Kind, e.ID), e.N, cs.Op, cs.Mode, cs.FaultAt), wit)
+			break
+		}
 	}
 	for _, e := range out.Events {
 		if e.Op == "mark" && e.Tag == "write-error-swallowed" {
